@@ -40,7 +40,7 @@ def run(ctx):
     distinct = {tuple((s["op"], s.get("who"), s.get("kind")) for s in b["steps"]) for b in beh}
     return vlib.finish(
         ctx, "model_checking",
-        rule="histories = seeded TLC simulation of NegNeeded.tla (changes on either endpoint, offers, completed exchanges, close), "
+        rule="histories = seeded TLC simulation of NegNeeded.tla (changes on either endpoint, offers, provisional answers, completed exchanges, close), "
              "replayed on a real connected pair with both operations queues drained after every call; one evaluation = one "
              "predicate instance on a fire / drained line; distinct = distinct histories",
         distinct_nontrivial=len(distinct), exhaustive=False,
